@@ -38,6 +38,7 @@ func init() {
 			{ID: "C05.16", Desc: "trailers are stored whatever the length framing (HTTP/2 with Content-Length)", Run: func(c *Ctx) { ruleChunkedWhenTrailersOnly(c, "C05.16") }, MinSites: 1},
 			{ID: "C05.17", Desc: "a 304 removes no stored end-to-end field that it does not repeat", Run: func(c *Ctx) { ruleMergeDeletesOnlyAge(c, "C05.17") }, MinSites: 1},
 			{ID: "C05.18", Desc: "no end-to-end field is listed as hop-by-hop", Run: func(c *Ctx) { ruleHopTableExact(c, "C05.18") }, MinSites: 1},
+			{ID: "C05.19", Desc: "every name put into the hop-by-hop set is in canonical form (the 304 merge looks fields up by their canonical names)", Run: func(c *Ctx) { ruleHopSetKeysCanonical(c, "C05.19") }, MinSites: 1},
 		},
 	})
 }
